@@ -633,6 +633,24 @@ impl Node {
         !matches!(self, Empty | Assert(_) | Look(..) | SetFlags(..))
     }
 
+    /// F25 class: a counted repeat (upper bound >= 2) over a body that can match the empty string, nested inside
+    /// another repeat that can iterate at least twice: the VM retries every number of empty iterations on every level
+    pub fn has_nested_counted_nullable_repeat(&self) -> bool {
+        fn walk(n: &Node, inside: bool) -> bool {
+            match n {
+                Repeat(c, _, hi, _) => {
+                    let multi = hi.map_or(true, |h| h >= 2);
+                    if inside && multi && hi.is_some() && c.nullable() {
+                        return true;
+                    }
+                    walk(c, inside || multi)
+                }
+                _ => n.children().iter().any(|c| walk(c, inside)),
+            }
+        }
+        walk(self, false)
+    }
+
     /// F23 class: a bracketed class containing unescaped white space or `#` while the free-spacing flag `x` is
     /// switched on somewhere in the pattern (the crate keeps class contents verbatim, the regex crate skips white
     /// space and comments inside classes too)
